@@ -16,8 +16,9 @@ ASSUMPTIONS = [
     'structures containing a choice node or the ANYHL7SEGMENT pseudo-segment, or naming a segment whose table rows are '
     'malformed (C02 findings), are counted and skipped',
     'the exact-tree and validation clauses are judged only for unambiguous instances (every segment name used occurs at one '
-    'place in the structure), as the statement says; group repetitions are generated only where the first member of the '
-    'group is a required non-repeatable segment',
+    'place in the structure), as the statement says; group repetitions are generated where the repetition starts with a '
+    'non-repeatable member the previous repetition holds - a direct member, or (mode nested-repeat) a member of non-repeatable '
+    'nested groups',
 ]
 
 
@@ -76,6 +77,21 @@ def flatten(el, out):
         else:
             out.append(c)
     return out
+
+
+def nested_recurrence(want, got):
+    """mechanism of the known deviation: a non-repeatable member recurs one or more levels below the group that has to
+    repeat; prescribed (..., (G, r), (H, 0), ...) - the library opens a second instance of the non-repeatable inner group
+    instead: (..., (G, r - 1), (H, 1), ...)"""
+    if want.seg != got.seg or len(want.path) != len(got.path) or len(want.path) < 2:
+        return False
+    for i in range(len(want.path) - 1):
+        if want.path[i] == got.path[i]:
+            continue
+        (g1, r1), (g2, r2) = want.path[i], got.path[i]
+        (h1, k1), (h2, k2) = want.path[i + 1], got.path[i + 1]
+        return g1 == g2 and r2 == r1 - 1 and h1 == h2 and k1 == 0 and k2 >= 1
+    return False
 
 
 def check_instance(parser, v, name, node, lines, text, mode, rec):
@@ -151,7 +167,10 @@ def check_instance(parser, v, name, node, lines, text, mode, rec):
         want = list(lines)
         if got != want:
             d = [(a, b) for a, b in zip(want, got) if a != b][:2]
-            rec.violation('tree-differs-from-prescribed', case, {'first_diff': str(d)[:300]}, row=row)
+            cause = 'tree-differs-from-prescribed'
+            if mode == 'nested-repeat' and d and nested_recurrence(d[0][0], d[0][1]):
+                cause = 'nested-member-recurrence-opens-the-inner-group'
+            rec.violation(cause, case, {'first_diff': str(d)[:300]}, row=row)
             return
         rec.count('exact_tree_checks')
         try:
@@ -201,11 +220,14 @@ def run_shard(spec, rec):
             except Exception:
                 pass
             rec.count('cross_version_preludes')
-        modes = ['required', 'all', 'repeat', 'random']
+        modes = ['required', 'all', 'repeat', 'random', 'nested-repeat']
         for r in range(spec['rounds']):
             for mode in modes:
-                emode = {'required': 'required', 'all': 'all', 'repeat': 'all', 'random': 'random'}[mode]
-                lines = structref.emit(node, rng, emode, 3 if mode in ('repeat', 'random') else 1)
+                emode = {'required': 'required', 'all': 'all', 'repeat': 'all', 'random': 'random', 'nested-repeat': 'all'}[mode]
+                # 'nested-repeat': a group repetition may also start with a non-repeatable member of a non-repeatable nested
+                # group (a second PID opens a second PATIENT_RESULT)
+                lines = structref.emit(node, rng, emode, 3 if mode in ('repeat', 'random') else 2 if mode == 'nested-repeat' else 1,
+                                       wide=(mode == 'nested-repeat'))
                 out = []
                 for l in lines:
                     out.append(structref.conforming_msh(v, name) if l.seg == 'MSH' else token_line(v, l.seg, toks, mode))
